@@ -79,6 +79,13 @@ def racing_clock(step=1.0):
             setattr(_time, n, f)
 
 
+def _note_timeout(runner, g, prune, limit):
+    import crlib
+    if len(crlib.TIMED_OUT_INPUTS) < 3 and len(g.get("players", [])) <= 60:
+        crlib.TIMED_OUT_INPUTS.append({"runner": runner, "prune": prune, "limit_s": limit,
+                                       "game": {k: v for k, v in g.items() if not k.startswith("_") and k != "prune_states"}})
+
+
 def err_kind(e):
     """Map an exception to a small enum; messages are never compared as text."""
     cls = type(e).__name__
@@ -134,6 +141,7 @@ def solve_inplace(g, prune=True, limit=10.0, want_nodes=True, sg=None):
         out["res"] = [list(x) if isinstance(x, (list, tuple)) else x for x in res]
     except Timeout:
         out["outcome"] = "Timeout"
+        _note_timeout("solve", g, prune, limit)
     except RecursionError as e:
         out["outcome"] = "RecursionError"
     except Exception as e:  # noqa
@@ -164,6 +172,7 @@ def reach_only(game, prune=False, thr=THR, limit=10.0):
                    floor=solver.floor)
     except Timeout:
         out["outcome"] = "Timeout"
+        _note_timeout("reach_only", g, prune, limit)
     except RecursionError:
         out["outcome"] = "RecursionError"
     except Exception as e:  # noqa
